@@ -129,6 +129,16 @@ def positive(tier, seed):
             out.append(("kmer", "u64", background(DNA, k, seed + 3000 + k + 100 * v)))
     for k in (range(1, 65) if th else [1, 31, 32, 33, 63, 64]):
         out.append(("kmer", "u128", background(DNA, k, seed + 4000 + k)))
+    # the same string value in Rust's other literal spellings (raw strings, \\x and \\u escapes): a macro has to
+    # take the literal's VALUE, not its source text
+    for sp in SPELLINGS:
+        for mac, alpha, lens in [("dna", DNA, [0, 1, 4, 33]), ("iupac", IUPAC, [1, 5, 17])]:
+            for n in lens:
+                if n == 0 and sp in ("hex", "uni", "mixed"):
+                    continue
+                out.append((mac, None, background(alpha, n, seed + 8000 + n), sp))
+        for st in [None, "u64", "u128"]:
+            out.append(("kmer", st, background(DNA, 5, seed + 8100), sp))
     # dedupe, keep order
     seen = set()
     res = []
@@ -167,23 +177,53 @@ def negative(tier, seed):
                 for cls, ch in BAD[mac]:
                     out.append((mac, storage, base[:p] + ch + base[p + 1:], cls))
                 out.append((mac, storage, background(alpha, n, seed + 6000 + n + p), None))
+    # the other literal spellings: valid ones interleaved with ones whose VALUE has an offending character
+    for sp in SPELLINGS:
+        for mac, storage in [("dna", None), ("iupac", None), ("kmer", None), ("kmer", "u64")]:
+            alpha = IUPAC if mac == "iupac" else DNA
+            base = background(alpha, 6, seed + 9000)
+            out.append((mac, storage, base, None, sp))
+            for cls, ch in BAD[mac]:
+                if ch in ('"', "\\", "\n") or (sp in ("raw", "rawhash") and ch == "\n"):
+                    continue
+                out.append((mac, storage, base[:2] + ch + base[3:], cls, sp))
     return out
 
 
-def lit_expr(mac, storage, text):
-    s = progs.rust_str(text)
+SPELLINGS = ["raw", "rawhash", "hex", "uni", "mixed"]
+
+
+def spell(text, spelling):
+    """The literal token for `text` in one of Rust's other spellings of the same string value."""
+    if spelling is None:
+        return progs.rust_str(text)
+    if spelling == "raw":
+        return 'r"' + text + '"'
+    if spelling == "rawhash":
+        return 'r##"' + text + '"##'
+    if spelling == "hex":
+        return '"' + "".join(f"\\x{ord(c):02x}" if ord(c) < 128 else c for c in text) + '"'
+    if spelling == "uni":
+        return '"' + "".join(f"\\u{{{ord(c):x}}}" for c in text) + '"'
+    if spelling == "mixed":
+        return '"' + "".join((f"\\x{ord(c):02X}" if i % 3 == 1 and ord(c) < 128 else (f"\\u{{{ord(c):04X}}}" if i % 3 == 2 else c)) for i, c in enumerate(text)) + '"'
+    raise ValueError(spelling)
+
+
+def lit_expr(mac, storage, text, spelling=None):
+    s = spell(text, spelling)
     if mac == "kmer":
         return f"kmer!({s}, {storage})" if storage else f"kmer!({s})"
     return f"{mac}!({s})"
 
 
-def pos_line(i, mac, storage, text):
+def pos_line(i, mac, storage, text, spelling=None):
     s = progs.rust_str(text)
     if mac == "dna":
-        return f"    chk::<Dna>({i}, {lit_expr(mac, storage, text)}, {s});"
+        return f"    chk::<Dna>({i}, {lit_expr(mac, storage, text, spelling)}, {s});"
     if mac == "iupac":
-        return f"    chk::<Iupac>({i}, {lit_expr(mac, storage, text)}, {s});"
-    return f"    chk_kmer({i}, {lit_expr(mac, storage, text)}, {s});"
+        return f"    chk::<Iupac>({i}, {lit_expr(mac, storage, text, spelling)}, {s});"
+    return f"    chk_kmer({i}, {lit_expr(mac, storage, text, spelling)}, {s});"
 
 
 def run_positive(res, lits, root, env, tag):
@@ -208,7 +248,7 @@ def run_positive(res, lits, root, env, tag):
                 if 0 <= k < len(ch):
                     i, l = ch[k]
                     bad_ids.add(i)
-                    res.violation(f"{l[0]}!/valid-literal-does-not-compile", f"{lit_expr(*l)} does not compile: {texts[0][:200]}", {"kind": "positive", "macro": l[0], "storage": l[1], "text": l[2]})
+                    res.violation(f"{l[0]}!/valid-literal-does-not-compile", f"{lit_expr(*l)} does not compile: {texts[0][:200]}", {"kind": "positive", "macro": l[0], "storage": l[1], "text": l[2], "spelling": (l[3] if len(l) > 3 else None)})
         if not bad_ids:
             raise RuntimeError("positive programs do not build and no literal line is to blame:\n" + err[-3000:])
         return
@@ -219,7 +259,7 @@ def run_positive(res, lits, root, env, tag):
             if line.startswith("FAIL "):
                 _, i, why = line.split(" ", 2)
                 l = lits[int(i)]
-                res.violation(f"{l[0]}!/literal-differs-from-runtime-parse", f"{lit_expr(*l)}: {why}", {"kind": "positive", "macro": l[0], "storage": l[1], "text": l[2]})
+                res.violation(f"{l[0]}!/literal-differs-from-runtime-parse", f"{lit_expr(*l)}: {why}", {"kind": "positive", "macro": l[0], "storage": l[1], "text": l[2], "spelling": (l[3] if len(l) > 3 else None)})
             if line.startswith("DONE"):
                 done = True
         if rc != 0 or not done:
@@ -234,11 +274,12 @@ def run_negative(res, negs, root, env, tag):
     proj = progs.project(root, "c16neg" + tag)
     head = "#![allow(unused)]\nuse bio_seq::prelude::*;\nfn main() {\n"
     first = head.count("\n") + 1
-    lines = [f"    let _ = {lit_expr(m, st, t)};" for (m, st, t, c) in negs]
+    negs = [n if len(n) > 4 else tuple(n) + (None,) for n in negs]
+    lines = [f"    let _ = {lit_expr(m, st, t, sp)};" for (m, st, t, c, sp) in negs]
     progs.write_bin(proj, "neg", head + "\n".join(lines) + "\n}\n")
     rc, msgs, err = progs.check_bin(proj, root, env, "neg")
     el = progs.error_lines(msgs, "src/bin/neg.rs")
-    for k, (m, st, t, c) in enumerate(negs):
+    for k, (m, st, t, c, sp) in enumerate(negs):
         ln = first + k
         res.case({"macro": m, "storage": st, "text": t[:60], "offending": c} if k % 41 == 0 else None)
         res.check()
@@ -246,9 +287,9 @@ def run_negative(res, negs, root, env, tag):
         res.outcome((m, st, c, has))
         form = f"{m}!" if not st else f"{m}!(_, {st})"
         if c and not has:
-            res.violation(f"{form}/invalid-literal-compiles/{c}", f"{lit_expr(m, st, t)} (offending character class: {c}) is accepted by the compiler", {"kind": "negative", "macro": m, "storage": st, "text": t, "class": c})
+            res.violation(f"{form}/invalid-literal-compiles/{c}", f"{lit_expr(m, st, t, sp)} (offending character class: {c}) is accepted by the compiler", {"kind": "negative", "macro": m, "storage": st, "text": t, "class": c, "spelling": sp})
         if not c and has:
-            res.violation(f"{form}/valid-literal-rejected", f"{lit_expr(m, st, t)} is rejected: {el[ln][0][:200]}", {"kind": "negative", "macro": m, "storage": st, "text": t, "class": None})
+            res.violation(f"{form}/valid-literal-rejected", f"{lit_expr(m, st, t, sp)} is rejected: {el[ln][0][:200]}", {"kind": "negative", "macro": m, "storage": st, "text": t, "class": None, "spelling": sp})
 
 
 def run(tier, seed, root, env):
@@ -268,9 +309,9 @@ def replay(rec, root, env):
     c = rec["case"]
     res = progs.Result("C16", "E3-literal-programs", "dev", "quick", 0, "c16")
     if c["kind"] == "negative":
-        run_negative(res, [(c["macro"], c.get("storage"), c["text"], c["class"])], root, env, "replay")
+        run_negative(res, [(c["macro"], c.get("storage"), c["text"], c["class"], c.get("spelling"))], root, env, "replay")
     else:
-        run_positive(res, [(c["macro"], c.get("storage"), c["text"])], root, env, "replay")
+        run_positive(res, [(c["macro"], c.get("storage"), c["text"], c.get("spelling"))], root, env, "replay")
     r = res.done()
     for v in r["violations"]:
         print(f"reproduced: {v['sig']}: {v['examples'][0]['detail'][:400]}")
